@@ -41,6 +41,20 @@ extern uint64_t pre_ncmp;
 #define HINT_A (g_pos == g_set_n || !RANK_LT(REG_RANK(g_pos), g_key_rank))
 #define LG_COST_OK(extra) (g_ncmp <= pre_ncmp + 2 * g_lg + (extra))
 
+/* a node handle argument: engaged exactly when g_alias, its value being the key; nothing else tracked lives in the node */
+#define NODE_VAL(nh) (&(nh)->_optV._val)
+#define NODE_REQ(nh) (NODE_SHAPE(nh) && g_key_obj == OBJ(nh) && g_key_off == OFF(NODE_VAL(nh)))
+#define PRE_TOK_IN_NODE(nh) (pre_g.tok_on && pre_g.tok_obj == OBJ(nh) && pre_g.tok_off == OFF(NODE_VAL(nh)))
+#define NODE_SHAPE(nh) (V_FRESH(nh, sizeof(*(nh))) && (nh)->_optV._engaged == g_alias && \
+                      (g_cell_obj != OBJ(nh) || (g_cell_off == OFF(NODE_VAL(nh)) && g_cell_st == (g_alias ? ST_LIVE : ST_RAW))) && \
+                      (!g_tok_on || g_tok_obj != OBJ(nh) || (g_alias && g_tok_off == OFF(NODE_VAL(nh)))) && g_blk_obj != OBJ(nh))
+/* a node under construction (result slot) */
+#define NODE_RAW(r) (V_FRESH(r, sizeof(*(r))) && (g_cell_obj != OBJ(r) || (g_cell_st == ST_RAW && g_cell_off == OFF(NODE_VAL(r)))) && !(g_tok_on && g_tok_obj == OBJ(r)) && g_blk_obj != OBJ(r))
+/* an insert_return_type under construction: raw object whose node member will hold the value slot */
+#define IRT_RAW(r) (V_FRESH(r, sizeof(*(r))) && (g_cell_obj != OBJ(r) || (g_cell_st == ST_RAW && g_cell_off == OFF(NODE_VAL(&(r)->node)))) && !(g_tok_on && g_tok_obj == OBJ(r)) && g_blk_obj != OBJ(r))
+/* a node in the post-state: its value slot is alive exactly when it is engaged */
+#define NODE_OK(nh) (g_cell_obj != OBJ(nh) || g_cell_off != OFF(NODE_VAL(nh)) || (g_cell_st == ((nh)->_optV._engaged ? ST_LIVE : ST_RAW)))
+
 /* ------------------------------------------------------------------------------------------------ SmallSet
  * SS_T: lowered SmallSet struct { VecType _vec (FixedCapacityVector<T,N,Unchecked>, FLAVOUR == FL_STATIC); SetType _set }.
  * The inline elements are ALL registered (N <= 4: slots 0..3 hold indices 0..3) and pairwise non-equivalent; the large state
